@@ -573,3 +573,16 @@ class AbsoluteDuration(Duration):
             self._invert = self._total < 0
 
         return self._invert
+
+    def __reduce__(self) -> tuple[type[Self], tuple[int, ...]]:
+        # The components are absolute values: the sign lives in the native value
+        cls, args = super().__reduce__()
+        if self._total < 0:
+            args = (-args[0], -args[1], -args[2], *args[3:])
+
+        return cls, args
+
+    def __deepcopy__(self, _: dict[int, Self]) -> Self:
+        cls, args = self.__reduce__()
+
+        return cls(*args)
